@@ -104,6 +104,24 @@ static void replay_case(const json & c) {
             }
             ++k;
         }
+        // the same field reached by copy assignment into a smaller, already allocated field of the same type: every access
+        // must still stay inside the (new) storage and read the same values
+        {
+            typename RS::configuration_t one; for (std::size_t k = 0; k < N; ++k) one[k] = 1;
+            covfie::field<RS> tiny(covfie::make_parameter_pack(std::move(one), typename A::configuration_t{1ul}));
+            covfie::field<BL> g(tiny);
+            g = f;
+            typename covfie::field<BL>::view_t gv(g);
+            long kk = 0;
+            for (auto & e : c["box"]) {
+                auto cc = mkcoord<CoordT, N>(e["c"].get<std::vector<uint64_t>>());
+                json x = ctx; x["c"] = e["c"]; x["reached_by"] = "copy assignment into a smaller field";
+                expect_eq("value-after-assignment/" + tag, (double)gv.at(cc)[0], (double)(kk * 4 + 1), x);
+                gv.at(cc)[0] = static_cast<StoreT>(7);
+                ++kk;
+            }
+            expect_eq("storage-size-after-assignment/" + tag, (uint64_t)g.backend().get_backend().get_configuration()[0], want_size, ctx);
+        }
         // C14 "stores coordinate c at flat position p": look at the storage block itself, not only at lookups
         {
             typename A::non_owning_data_t raw(f.backend().get_backend());
